@@ -280,13 +280,13 @@ fn run_scalar(ctx: &Ctx) -> Report {
         let mut rng = Rng::derive(seed, 0xC09, *idx as u64);
         let len = rng.range(40, maxlen);
         let xs: Vec<f64> = if idx % 3 != 2 {
-            rand_stream(RAND_KINDS[idx % RAND_KINDS.len()], len, &mut rng)
+            rand_stream(RAND_KINDS[(idx / 3) % RAND_KINDS.len()], len, &mut rng)
         } else {
             let m = *rng.pick(&[1e-3, 1.0, 1e6, 1e9]);
             let sign = if rng.chance(0.3) { -1.0 } else { 1.0 };
-            BandGen::new(BAND_REGIMES[idx % BAND_REGIMES.len()], m, rng.u64()).take(len).into_iter().map(|x| sign * x).collect()
+            BandGen::new(BAND_REGIMES[(idx / 3) % BAND_REGIMES.len()], m, rng.u64()).take(len).into_iter().map(|x| sign * x).collect()
         };
-        rep.count(&format!("scalar.family.{}", if idx % 3 != 2 { format!("{:?}", RAND_KINDS[idx % RAND_KINDS.len()]) } else { "band".into() }));
+        rep.count(&format!("scalar.family.{}", if idx % 3 != 2 { format!("{:?}", RAND_KINDS[(idx / 3) % RAND_KINDS.len()]) } else { "band".into() }));
         let inputs: Vec<In> = xs.iter().map(|x| In::S(*x)).collect();
         let kinds = [Kind::Sd, Kind::Mad, Kind::Tr, Kind::Atr, Kind::Bb, Kind::Kc, Kind::Macd, Kind::Ppo, Kind::Sma, Kind::Wma, Kind::Ema];
         drive(rep, &inputs, &kinds, &mut rng, &xs[..xs.len().min(64)]);
